@@ -109,7 +109,7 @@ func (c *compiler) compile(o interface{}) error {
 		p := o.(Meta).Parent()
 		if !x.IsConfigSet() {
 			x.setConfig(c.inheritConfig(p))
-		} else if x.Config() && !p.(HasConfig).Config() {
+		} else if hp, parentHasConfig := p.(HasConfig); parentHasConfig && x.Config() && !hp.Config() {
 			return fmt.Errorf("%s - config cannot be true when parent config is false", SchemaPath(o.(Meta)))
 		}
 	}
